@@ -31,7 +31,7 @@ PROPS = {
     },
     "C05": {
         "title": "Every feasible configuration terminates",
-        "lean": ["TopsimProps.C05", "TopsimProofs.Bridge.Admission", "TopsimProofs.Bridge.BufferArith", "TopsimProofs.Bridge.Sched", "TopsimProps.C05Live", "TopsimProps.C05LiveBatch", "TopsimProps.C05LivePlan", "TopsimProps.C08Promised"],
+        "lean": ["TopsimProps.C05", "TopsimProofs.Bridge.Admission", "TopsimProofs.Bridge.BufferArith", "TopsimProofs.Bridge.Sched", "TopsimProps.C05Live", "TopsimProps.C05LiveBatch", "TopsimProps.C05LivePlan", "TopsimProps.C05Bound", "TopsimProps.C08Promised"],
         "streams": [("feasible", 40, 800), ("tiering", 16, 200), ("samestep", 12, 150), ("edge", 32, 600), ("hotwait", 12, 200)],
         "monitor": ["C05"],
     },
@@ -132,5 +132,5 @@ PROPS = {
 
 DIRECT_N = {  # (quick, thorough)
     "c06": (150, 3000), "c14": (60, 1500), "c15": (0, 0), "c16": (80, 2000), "c18": (80, 2000),
-    "c10": (16, 120), "c11": (6, 30),
+    "c10": (18, 120), "c11": (6, 30),
 }
